@@ -174,9 +174,11 @@ Definition refused (local : bytes) : bool :=
   || ((0 <? length local) && (length local <=? length VP_DOTS)
       && bytes_eqb local (firstn (length local) VP_DOTS)).
 
-Definition user_exists (db : cdb) (fs : name -> entry) (vb : option bytes) (domain local : bytes) : outcome :=
+(** user_exists() given the outcome [vg] of vget_dir(): an error code, "not in users/cdb", or what the path in
+    the record points to *)
+Definition user_exists_with (vg : Z + option domstate) (fs : name -> entry) (vb : option bytes) (local : bytes) : outcome :=
   if refused local then mkOut 0 None [] else
-  match vget_dir db domain with
+  match vg with
   | inl e => mkOut e None []
   | inr None => mkOut VP_RC_NOTLOCAL None []
   | inr (Some d) =>
@@ -189,6 +191,9 @@ Definition user_exists (db : cdb) (fs : name -> entry) (vb : option bytes) (doma
           else mkOut (- Z.of_N VP_EDONE) None []
       end
   end.
+
+Definition user_exists (db : cdb) (fs : name -> entry) (vb : option bytes) (domain local : bytes) : outcome :=
+  user_exists_with (vget_dir db domain) fs vb local.
 
 (** ** the concrete directory of the correspondence run
     [lay] lists the entries of the domain directory (first entry of a name wins); everything else is absent.
